@@ -12,6 +12,7 @@ static struct { const char *name; int (*fn)(FILE *, FILE *); } cmds[] = {
     {"scan", cmd_scan},
     {"ranges", cmd_ranges},
     {"copy", cmd_copy},
+    {"feed", cmd_feed},
     {NULL, NULL}
 };
 
